@@ -161,6 +161,22 @@ def _flatten(branch: list) -> List[list]:
     return seqs
 
 
+def may_contain(expr: Optional[str], chars) -> bool:
+    """some string of L(expr) contains one of ``chars`` (decided on the expression by NFA product; True when undecidable here)"""
+    import re as _re
+
+    from . import nfa
+
+    raw = DEFAULT_EXPR if expr is None else expr
+    for ch in chars:
+        try:
+            if nfa.witness_of_intersection(raw, r"[\s\S]*" + _re.escape(ch) + r"[\s\S]*") is not None:
+                return True
+        except Exception:
+            return True
+    return False
+
+
 def classify(expr: Optional[str], sep: str = "/") -> Lang:
     raw = DEFAULT_EXPR if expr is None else expr
     try:
@@ -231,7 +247,8 @@ def classify(expr: Optional[str], sep: str = "/") -> Lang:
                 if sep in lit:
                     contains_sep = True
     if other:
-        return Lang("other", tuple(words), tuple(symbols), tuple(shapes), contains_sep, raw)
+        # a shape this classifier has no name for: whether it can contain the separator is still decidable on the expression
+        return Lang("other", tuple(words), tuple(symbols), tuple(shapes), may_contain(raw, [sep]), raw)
     if open_:
         return Lang("open", tuple(words), tuple(symbols), tuple(shapes), contains_sep, raw)
     if shapes and not words:
